@@ -117,6 +117,18 @@ Init ==
    \* the object-valued property through the other decoders that can carry one
    \/ \E fam \in {"json", "yaml"}, v \in NestVals :
         case = [part |-> "decode", family |-> fam, schema |-> "S8", v |-> v, excludeRO |-> FALSE, enc |-> "default", clen |-> "known", setDefaults |-> FALSE]
+   \* the same value in another spelling of its syntax: JSON pretty-printed with white space around it / every character of every string and key as a
+   \* \u escape; YAML in flow style
+   \/ \E fs \in {<<"json", "pretty">>, <<"json", "escaped">>, <<"yaml", "flow">>}, sc \in {"S1", "S2"}, v \in ObjVals \cup StructVals :
+        case = [part |-> "decode", family |-> fs[1], schema |-> sc, v |-> v, excludeRO |-> FALSE, enc |-> "default", clen |-> "known", setDefaults |-> FALSE, textForm |-> fs[2]]
+   \* the other names the library registers the JSON / YAML decoders under (declared and sent under that name)
+   \/ \E fm \in {<<"json", "application/problem+json">>, <<"json", "application/hal+json">>, <<"json", "application/ld+json">>, <<"json", "application/vnd.api+json">>,
+                  <<"json", "application/json-patch+json">>, <<"yaml", "application/x-yaml">>},
+         v \in {Obj(<<"n", "s">>, <<N(4), St(<<"a">>)>>), Obj(<<"n", "ro">>, <<N(4), St(<<"v">>)>>), Obj(<<"n">>, <<St(<<"x">>)>>)}, xro \in BOOLEAN :
+        case = [part |-> "decode", family |-> fm[1], schema |-> "S2", v |-> v, excludeRO |-> xro, enc |-> "default", clen |-> "known", setDefaults |-> FALSE, mtName |-> fm[2]]
+   \* an object-valued property of a urlencoded body, style deepObject (o[a]=4); directly and below a typed allOf
+   \/ \E v \in NestVals, w \in {"plain", "allOfT"} :
+        case = [part |-> "decode", family |-> "form", schema |-> "S8", wrap |-> w, v |-> v, excludeRO |-> FALSE, enc |-> "deep", clen |-> "known", setDefaults |-> FALSE]
    \* texts that encode nothing: rejected whatever the schema (S2: the object schema; E: the empty schema)
    \/ \E mk \in MalKinds, sc \in {"S2", "E"} :
         /\ (mk[1] \in {"form", "multipart"} => sc = "S2")
@@ -154,7 +166,8 @@ Init ==
    \/ \E v \in TextVals :
         case = [part |-> "decode", family |-> "text", schema |-> "text", v |-> v, excludeRO |-> FALSE, enc |-> "default", clen |-> "known", setDefaults |-> FALSE]
    \* text/plain bodies against schemas with and without a "type" keyword
-   \/ \E fam \in {"text", "octet"}, sc \in TextSchemas2, v \in TextVals2 :      \* octet: application/octet-stream, the body bytes as a string
+   \/ \E fam \in {"text", "octet", "zip"}, sc \in TextSchemas2, v \in TextVals2 :      \* octet: application/octet-stream, the body bytes as a string;
+                                                                                      \* zip: the library's opt-in ZipFileBodyDecoder registered for application/zip, an archive of one file
         /\ (sc = "T6" => ~IsDigits(v))                  \* left open: whether the text 42 is an integer for a text/plain body
         /\ case = [part |-> "decode", family |-> fam, schema |-> sc, v |-> v, excludeRO |-> FALSE, enc |-> "default", clen |-> "known", setDefaults |-> FALSE]
    \* multipart parts decoded as plain text (no part Content-Type, or text/plain spelled out) against typed and untyped properties
@@ -199,4 +212,23 @@ ExclusionLaws ==
       /\ (~HasKey(v, "ro") => (Valid(Wrap(sc, w), WrapVal(v, w), "asreq") = Valid(Wrap(sc, w), WrapVal(v, w), "asreq_noro")))
 ASSUME WrapLaws
 ASSUME ExclusionLaws
+
+(* D: the precedence over the two-family universe: the selected entry is always a declared one; each level is reached exactly  *)
+(* when every level before it fails; nothing is selected exactly when all four fail; no header selects */* or nothing.          *)
+SelectLaws2 ==
+   /\ \A d \in DeclSets2, h \in Hdrs2 \ {[absent |-> TRUE]} :
+         LET sel == Select(d, h) IN
+         /\ (~IsNone(sel) => sel \in d)
+         /\ (h \in d => sel = h)
+         /\ (h \notin d /\ Strip(h) \in d => sel = Strip(h))
+         /\ (h \notin d /\ Strip(h) \notin d /\ MT(h.ty, "*", "") \in d => sel = MT(h.ty, "*", ""))
+         /\ (IsNone(sel) <=> (h \notin d /\ Strip(h) \notin d /\ MT(h.ty, "*", "") \notin d /\ AnyWild \notin d))
+   /\ \A d \in DeclSets2 : Select(d, [absent |-> TRUE]) = (IF AnyWild \in d THEN AnyWild ELSE NoneRec)
+ASSUME SelectLaws2
+(* D: a parameter on the Content-Type header or on the declared key decides only WHETHER the entry is selected: it is selected *)
+(* unless the key carries a parameter the header does not spell the same way.                                                    *)
+CtLaws ==
+   \A b \in {Json, Form, Text, Yaml, Octet}, dp \in {"", "charset=utf-8"}, hp \in {"", "charset=utf-8", "charset=ascii"} :
+      IsNone(Select({[b EXCEPT !.par = dp]}, [b EXCEPT !.par = hp])) <=> (dp # "" /\ dp # hp)
+ASSUME CtLaws
 =============================================================================
